@@ -358,7 +358,15 @@ class NonNegDomain(Domain):
         if fn in ("np.abs", "abs", "np.fabs", "np.absolute", "np.square"):
             return "NN"
         if fn in ("np.maximum", "max", "np.fmax") and len(flat) == 2:
-            return "NN" if "NN" in flat else self._atom(node)
+            if flat[0] == "NN" and flat[1] == "NN":
+                return "NN"
+            if "NN" in flat:
+                # max(<difference>, 0): never negative, but only because the rounding noise of a cancellation is cut off
+                return ("CLAMPED", norm_text(node.args[0] if flat[1] == "NN" else node.args[1]))
+            return self._atom(node)
+        if fn == "np.clip" and flat and flat[0] != "NN" and len(node.args) >= 2 and isinstance(const_value(node.args[1]), (int, float)) \
+                and const_value(node.args[1]) >= 0:
+            return ("CLAMPED", norm_text(node.args[0]))
         if fn in ("np.sum", "sum", "np.array", "np.asarray", "np.amax", "np.max", "np.amin", "np.min", "float") and flat:
             return flat[0] if flat[0] == "NN" or fn in ("np.array", "np.asarray", "float") else self._atom(node)
         return NotImplemented
@@ -1009,6 +1017,12 @@ def _r7(ctx):
                 st = st._parent
             if val == "NN":
                 ctx.holds(fi, st, "%s: radicand %s is a sum of squares" % (fi.name, norm_text(node.args[0])[:80]))
+            elif isinstance(val, tuple) and val[0] == "CLAMPED":
+                ctx.violated(fi, st, "%s: the radicand is the clamped value of %s, which is not non-negative by the way it is computed: "
+                             "the clamp hides the cancellation, it does not avoid it - where the exact value is small against the "
+                             "terms (a large hydrostatic part) the root carries the rounding noise of the terms, the result is no "
+                             "longer the invariant and does not agree with the principal-stress form" % (fi.name, val[1][:120]),
+                             text="radicand " + fi.name)
             else:
                 ctx.violated(fi, st, "%s: the radicand %s is not non-negative by the way it is computed; where it is exactly zero "
                              "(hydrostatic tensors, e.g. mises(0.7, 0.7, 0.7, 0, 0, 0)) rounding can make it negative and the "
@@ -1255,6 +1269,14 @@ def variants():
             c.keywords = [ast.keyword(arg="dtype", value=parse_expr("np.result_type(%s, np.float64)" % ast.unparse(c.args[0])))]
         return len(cs) == 6
     out.append(twin("mises promotes each component with np.result_type(x, np.float64)", EP, mises_result_type))
+
+    def mises_expanded_clamped(tree):
+        f = find_func(tree, "mises")
+        i = next(k for k, st in enumerate(f.body) if isinstance(st, ast.Assign) and "np.sqrt" in ast.unparse(st.value))
+        f.body[i:i + 1] = [parse_stmt("j2_times_3 = (s11 ** 2 + s22 ** 2 + s33 ** 2 - s11 * s22 - s22 * s33 - s33 * s11 + 3 * (s12 ** 2 + s13 ** 2 + s23 ** 2))"),
+                           parse_stmt("%s = np.sqrt(np.maximum(j2_times_3, 0.0))" % f.body[i].targets[0].id)]
+        return True
+    out.append(witness("mises from the expanded form of 3 J2, negative rounding noise clamped", EP, mises_expanded_clamped, "R-C17-7"))
 
     def mises_astype(tree):
         f = find_func(tree, "mises")
